@@ -17,10 +17,19 @@ import (
 
 // knut runs the plain binary in dir.
 func knut(c *core.Ctx, dir string, env []string, args ...string) core.Result {
-	return core.Exec(core.Cmd{
+	return execCounted(c, core.Cmd{
 		Argv: append([]string{c.Knut}, args...), Dir: dir, Env: env,
-		Timeout: 60 * time.Second, Fsize: -1,
+		Timeout: 40 * time.Second, Fsize: -1,
 	})
+}
+
+// execCounted runs a command and charges a watchdog firing to the run's budget.
+func execCounted(c *core.Ctx, cmd core.Cmd) core.Result {
+	res := core.Exec(cmd)
+	if res.Class == "timeout" {
+		c.Timeout()
+	}
+	return res
 }
 
 func knutCmd(c *core.Ctx, env []string, args ...string) string {
